@@ -294,13 +294,28 @@ fn seq_lines_history(rec: &fasta::RefRecord, o: &RecObs, ctx: &mut MonCtx) {
             report(ctx, "C20.seq_lines_size_hint", format!("after steps [{}] size_hint = ({},{:?}) but {} lines remain", desc, lo, hi, rem));
             return;
         }
-        let back = ctx.rng.chance(1, 2);
-        let (got, want) = if back {
+        let kind = ctx.rng.below(8);
+        let (got, want) = if kind < 3 {
             desc.push('b');
             (it.next_back(), model.pop_back())
-        } else {
+        } else if kind < 6 {
             desc.push('f');
             (it.next(), model.pop_front())
+        } else if kind == 6 {
+            // nth(k): skips k items, may overshoot the items that are left
+            let k = ctx.rng.below(3) as usize;
+            desc.push_str(&format!("n{}", k));
+            for _ in 0..k {
+                model.pop_front();
+            }
+            (it.nth(k), model.pop_front())
+        } else {
+            let k = ctx.rng.below(3) as usize;
+            desc.push_str(&format!("N{}", k));
+            for _ in 0..k {
+                model.pop_back();
+            }
+            (it.nth_back(k), model.pop_back())
         };
         ctx.iter_steps += 1;
         if got != want {
